@@ -1,21 +1,1 @@
 package props
-
-import (
-	"fmt"
-	"os"
-
-	"verif/core"
-)
-
-func init() {
-	core.Register(&core.Driver{Prop: "DBG", Serial: true, Run: func(c *core.Ctx) {
-		w := os.Stderr
-		for _, s := range c12Scenarios(false) {
-			sc := s.build(2)
-			sc.MaxEx = 4000
-			c.Res = core.NewResult()
-			core.ExploreSchedWhole(c, sc)
-			fmt.Fprintln(w, s.Name, c.Res.States, c.Res.Transitions, c.Res.Extra)
-		}
-	}})
-}
